@@ -166,6 +166,10 @@ impl PriceLevel {
     ) -> MatchResult {
         let mut result = MatchResult::new(taker_order_id, incoming_quantity);
         let mut remaining = incoming_quantity;
+        // Orders that can neither trade nor replenish right now (nothing displayed and
+        // nothing moved out of hidden). They are parked here and re-queued after the loop,
+        // otherwise the loop would pop and push the same order forever.
+        let mut set_aside: Vec<Arc<OrderType<()>>> = Vec::new();
 
         while remaining > 0 {
             if let Some(order_arc) = self.orders.pop() {
@@ -210,7 +214,11 @@ impl PriceLevel {
                             .fetch_add(hidden_reduced, Ordering::AcqRel);
                     }
 
-                    self.orders.push(Arc::new(updated));
+                    if consumed == 0 && hidden_reduced == 0 {
+                        set_aside.push(Arc::new(updated));
+                    } else {
+                        self.orders.push(Arc::new(updated));
+                    }
                 } else {
                     self.order_count.fetch_sub(1, Ordering::AcqRel);
                     match &*order_arc {
@@ -240,6 +248,10 @@ impl PriceLevel {
             } else {
                 break;
             }
+        }
+
+        for order in set_aside {
+            self.orders.push(order);
         }
 
         result.remaining_quantity = remaining;
